@@ -192,9 +192,10 @@ Fixpoint ins_mode (x : mode) (l : list mode) : list mode :=
   | y :: t => if key_gtb y x then y :: ins_mode x t else x :: l
   end.
 Definition sort_modes (l : list mode) : list mode := fold_right ins_mode [] l.
-(* NB: the modes explored under (baud, offset) are ALL fitting modes of that baud rate, whatever their own offset *)
-Definition modes_of (lib : list mode) (sp : Q) (br : Q) : list mode :=
-  sort_modes (filter (fun m => Qeq_bool (m_baud m) br && fits sp m) lib).
+(* the modes explored under the propagation (baud, offset): the fitting modes with that baud rate AND that offset
+   (request.py: `this_mode['baud_rate'] == this_br and this_mode['equalization_offset_db'] == this_offset`) *)
+Definition modes_of (lib : list mode) (sp : Q) (it : iter) : list mode :=
+  sort_modes (filter (fun m => Qeq_bool (m_baud m) (fst it) && Qeq_bool (m_off m) (snd it) && fits sp m) lib).
 
 (* the receiver after the propagation of iteration `it`, updated for mode m; None = path[-1].snr is None *)
 Definition provider := iter -> mode -> option figs.
@@ -245,7 +246,7 @@ Fixpoint loop_st {S : Type} (step : stepper S) (margin : Q) (lib : list mode) (s
       end
   | it :: t =>
       let (s', pf) := step s it in
-      let ms := modes_of lib sp (fst it) in
+      let ms := modes_of lib sp it in
       match try_modes margin (fun _ => pf) it ms with
       | Found m => (Selected it m, s')
       | Stop o => (o, s')
@@ -266,7 +267,7 @@ Definition mode_loop (margin : Q) (P : provider) (lib : list mode) (sp : Q) : ou
 
 (* the exploration order: (propagation, mode) pairs in the order the code evaluates them *)
 Definition explore (lib : list mode) (sp : Q) : list (iter * mode) :=
-  flat_map (fun it => map (pair it) (modes_of lib sp (fst it))) (iters lib sp).
+  flat_map (fun it => map (pair it) (modes_of lib sp it)) (iters lib sp).
 (* specification: the first explored pair that does not fail decides *)
 Fixpoint first_decisive (margin : Q) (P : provider) (l : list (iter * mode)) (lst : option (iter * mode)) : outcome :=
   match l with
@@ -351,20 +352,44 @@ Record load := mkL { l_nch : nat; l_pch : Q; l_off : Q }.
 Definition launch (l : load) : spectrum := repeat (mkP (l_pch l) 0) (l_nch l).
 Definition run_load (p : path) (l : load) : path * spectrum := propagate_path (l_off l) p (launch l).
 
-(* the code as it is: every (baud, offset) iteration of the mode loop propagates on the SAME path objects *)
+(* successive propagations on the SAME path objects without any restore (what the loop did before fix 6c7139d6; kept
+   to state why the restore is needed) *)
 Fixpoint leaky_runs (p : path) (ls : list load) : list spectrum :=
   match ls with
   | [] => []
   | l :: t => let (p', sp) := run_load p l in sp :: leaky_runs p' t
   end.
-(* repaired: every iteration starts from the designed state *)
+(* every propagation starts from the designed state *)
 Definition fresh_runs (p : path) (ls : list load) : list spectrum := map (fun l => snd (run_load p l)) ls.
+
+(* request.py l.436-442: the designed effective gain of every amplifier of the path is recorded before the loop and
+   written back at the top of every iteration; everything else on the path objects is left as the last propagation
+   left it *)
+Definition restore1 (d e : elem) : elem :=
+  match d, e with
+  | Edfa g _ _, Edfa _ pmax nf => Edfa g pmax nf
+  | _, _ => e
+  end.
+Fixpoint restore (designed p : path) : path :=
+  match designed, p with
+  | d :: dt, e :: pt => restore1 d e :: restore dt pt
+  | _, _ => p
+  end.
 
 (* steppers for loop_st: `conv` turns the received spectrum into the per-mode receiver figures (dB conversions,
    tx/add-drop noise, impairments) and `load_of` gives the load of an iteration; both are arbitrary *)
+(* the code: restore the designed gains, propagate on the path objects; the path keeps the state of this propagation *)
+Definition code_step (designed : path) (load_of : iter -> load) (conv : spectrum -> mode -> option figs) : stepper path :=
+  fun p it => let (p', sp) := run_load (restore designed p) (load_of it) in (p', conv sp).
+(* hypothetical loop without the restore *)
 Definition leaky_step (load_of : iter -> load) (conv : spectrum -> mode -> option figs) : stepper path :=
   fun p it => let (p', sp) := run_load p (load_of it) in (p', conv sp).
-Definition repaired_step (load_of : iter -> load) (conv : spectrum -> mode -> option figs) : stepper path :=
-  fun p it => (p, conv (snd (run_load p (load_of it)))).
 Definition fresh_provider (designed : path) (load_of : iter -> load) (conv : spectrum -> mode -> option figs) : provider :=
   fun it => conv (snd (run_load designed (load_of it))).
+(* the state of the path handed back to the caller: that of the LAST propagation made (the deciding one) *)
+Definition final_state (designed : path) (load_of : iter -> load) (o : outcome) : option path :=
+  match o with
+  | Selected it _ | NoFeasibleMode it _ => Some (fst (run_load designed (load_of it)))
+  | NoBaudrate => Some designed
+  | _ => None
+  end.
